@@ -34,6 +34,11 @@ CONSTANTS Projs,        \* subset of {"TAN", "TPV", "TANPV", "SIP"}
           PolyVariant,                       \* "pinned" | "zip_pair"  (self-test: evaluating the A/B pair over the common shape)
           OrdVariety,                        \* TRUE: SIP A/B (AP/BP) orders and the PV keyword sets of the two axes vary independently
           ReprCalls, ReprKinds,              \* input representations: calls and header kinds
+          AngCDIds, AngPixIds,               \* projection angles as cards / constructor keywords: CD ids and pixel ids of the angle classes
+          AngVariant,                        \* "pinned" | "keyword_dropped"  (self-test: angles given as keywords ignored)
+          HistAngs,                          \* where the history object got its projection angles: subset of AngPlaces
+          LifeCalls,                         \* subset of LifeOps: copy / deepcopy / pickle steps in the history machine
+          LifeVariant,                       \* "pinned" | "rebuild_from_header"  (self-test: a copy rebuilt from the header alone)
           DoExport
 
 VARIABLES phase, c, hk, obj, calls, results
@@ -148,7 +153,22 @@ ChooseRef ==
                 exp |-> <<NormLon(RefLon(lo)), RefLat(la)>>, lonfree |-> IsPoleLat(RefLat(la))]
     /\ phase' = "case" /\ UNCHANGED <<hk, obj, calls, results>>
 
-NextC == ChooseShape \/ ChooseCoefs \/ ChoosePix \/ ChooseRef
+\* projection angles: where (card | keyword) x LONPOLE lattice x LATPOLE; the expected class representative is the
+\* World value rotated by LonpoleRot.  One coefficient at most, distort = TRUE, CD / pixel ids of their own.
+\* (a covering: every placement x LONPOLE once, LATPOLE alternating)
+AngSet == {a \in [place : {"header", "keyword"}, lp : {0, 90, 180, 270}, latp : {45, 90}] :
+              AngWellFormed(a) /\ ((a.latp = 45) <=> ((a.lp \in {0, 90}) <=> (a.place = "keyword")))}
+ChooseAng ==
+    /\ phase = "header" /\ Len(c.h.co) <= 1 /\ c.h.ord[1] = c.h.ord[2] /\ c.h.pvsets[1] = c.h.pvsets[2]
+    /\ c.h.cd \in {CDMat(k) : k \in AngCDIds}
+    /\ \E pk \in AngPixIds : \E a \in AngSet :
+          LET off == PixOff(pk)
+              pix == <<RAdd(off[1], RInt(c.h.crpix[1])), RAdd(off[2], RInt(c.h.crpix[2]))>>
+              cc  == [kind |-> "angclass", h |-> c.h, pix |-> pix, distort |-> TRUE, ang |-> a]
+          IN c' = [kind |-> "angclass", h |-> c.h, pix |-> pix, distort |-> TRUE, ang |-> a, rep |-> AngRep(cc)]
+    /\ phase' = "case" /\ UNCHANGED <<hk, obj, calls, results>>
+
+NextC == ChooseShape \/ ChooseCoefs \/ ChoosePix \/ ChooseRef \/ ChooseAng
 
 \* ---- implementation-shaped model of the forward chain ------------------------------------
 \* esutil/wcsutil.py _scamp_map: key pv<ax>_<j> -> index (i, k) of the coefficient matrix;
@@ -198,6 +218,15 @@ MechI2S(h, pix, distort) ==
               IF distort /\ MechName(h) # "none" THEN Ok(MechDistort(h, w[1], w[2])) ELSE Ok(w)
          ELSE IF distort /\ MechName(h) # "none" THEN Ok(Lin(h.cd, MechDistort(h, d[1], d[2])))
               ELSE IF Repaired THEN Ok(Lin(h.cd, d)) ELSE Err("UnboundLocalError")    \* u, v never bound
+
+\* SetAngles: a card wins, else the constructor keyword, else the default; CreateRotationMatrix uses the attribute
+MechLp(a) == IF a.place = "header" THEN a.lp
+             ELSE IF a.place = "keyword" /\ AngVariant # "keyword_dropped" THEN a.lp ELSE 180
+AngRefines == phase = "case" /\ c.kind = "angclass" =>
+    LET r == MechI2S(c.h, c.pix, c.distort) IN
+    /\ r.err = "none" /\ Lin(LonpoleRot(MechLp(c.ang)), r.val) = c.rep
+    /\ World(TanRepHeader, c.rep, TRUE) = Lin(LonpoleRot(c.ang.lp), World(c.h, c.pix, c.distort))
+    /\ (c.ang.lp = 180 => c.rep = World(c.h, c.pix, c.distort))
 
 MechRefines == phase = "case" /\ c.kind = "class" => MechI2S(c.h, c.pix, c.distort) = Ok(World(c.h, c.pix, c.distort))
 
@@ -252,7 +281,7 @@ Res(op, a, b) == [op |-> op, a |-> a, b |-> b]
 Distorted(k) == k # "TAN"
 NoArg == <<"-", 0>>
 NoMemo == [call |-> "none", id |-> "none", res |-> Res("none", NoArg, "-")]
-MechCall(k, st, call, pos, mode) ==
+MechCall0(k, st, call, pos, mode) ==
     LET s      == <<"s", pos>>
         p      == <<"p", pos>>
         argid  == IF mode = "buffer" THEN "caller_buffer" ELSE "fresh"
@@ -289,10 +318,23 @@ MechCall(k, st, call, pos, mode) ==
             THEN [st |-> [plain.st EXCEPT !.memo = [call |-> call, id |-> argid, res |-> plain.res]], res |-> plain.res]
             ELSE plain
 
-HNoObj == [inv |-> "absent", guess |-> <<"none", <<"s", 0>>>>, memo |-> NoMemo, solver |-> "none"]
+\* every result is computed with the projection angles the object holds: "ctor" (what the constructor was given -
+\* cards or keywords) or "default" (180 / 90 / 90)
+MechCall(k, st, call, pos, mode) ==
+    LET r == MechCall0(k, st, call, pos, mode)
+    IN [st |-> r.st, res |-> [op |-> r.res.op, a |-> r.res.a, b |-> r.res.b, ang |-> st.ang]]
+\* life-cycle steps.  The code: no __reduce__ / __getstate__ - copy.copy copies the attribute dictionary (the copy shares the
+\* scratch arrays and the distortion dictionary with the original), deepcopy / pickle duplicate them: the same abstract
+\* state either way (the caller goes on with the copy only).  Variant "rebuild_from_header": the copy is WCS(header) -
+\* a new object that knows the cards but not the constructor keywords.
+LifeRes == [op |-> "life", a |-> NoArg, b |-> "-", ang |-> "-"]
+HNoObj == [inv |-> "absent", guess |-> <<"none", <<"s", 0>>>>, memo |-> NoMemo, solver |-> "none", ang |-> "ctor"]
+MechLife(st, op, place) ==
+    IF LifeVariant = "rebuild_from_header" THEN [HNoObj EXCEPT !.ang = IF place = "keyword" THEN "default" ELSE "ctor"]
+    ELSE st
 InitH == phase = "hist" /\ c = NoCase /\ hk = "none" /\ obj = HNoObj /\ calls = <<>> /\ results = <<>>
-ChooseKind == hk = "none" /\ \E k \in HistKinds : \E m \in HistArgModes :
-                 hk' = k /\ c' = [kind |-> "argmode", mode |-> m] /\ UNCHANGED <<phase, obj, calls, results>>
+ChooseKind == hk = "none" /\ \E k \in HistKinds : \E m \in HistArgModes : \E a \in HistAngs :
+                 hk' = k /\ c' = [kind |-> "argmode", mode |-> m, ang |-> a] /\ UNCHANGED <<phase, obj, calls, results>>
 \* the buffer mode is explored one call shorter (it multiplies the sequences by two)
 HistLen(k) == (IF k \in ShortKinds THEN MaxHist - 1 ELSE MaxHist) - (IF c.kind = "argmode" /\ c.mode = "buffer" THEN 1 ELSE 0)
 Call(cl) ==
@@ -302,10 +344,18 @@ Call(cl) ==
           /\ results' = Append(results, r.res)
     /\ calls' = Append(calls, cl)
     /\ UNCHANGED <<phase, c, hk>>
-NextH == ChooseKind \/ \E cl \in HistCalls : Call(cl)
+Life(op) ==
+    /\ hk # "none" /\ Len(calls) < HistLen(hk)
+    /\ obj' = MechLife(obj, op, c.ang)
+    /\ results' = Append(results, LifeRes)
+    /\ calls' = Append(calls, op)
+    /\ UNCHANGED <<phase, c, hk>>
+NextH == ChooseKind \/ (\E cl \in HistCalls : Call(cl)) \/ (\E op \in LifeCalls : Life(op))
 
-\* the property: every result is what a fresh object returns for that call with the arguments of its position
-HistoryIndependent == \A k \in DOMAIN results : results[k] = MechCall(hk, HNoObj, calls[k], k, c.mode).res
+\* the property: every result is what a fresh object - constructed like the original - returns for that call with the
+\* arguments of its position, whatever calls and life-cycle steps preceded
+HistoryIndependent == \A k \in DOMAIN results :
+    IF calls[k] \in LifeOps THEN results[k] = LifeRes ELSE results[k] = MechCall(hk, HNoObj, calls[k], k, c.mode).res
 
 \* ---- E. the world: several objects alive in one process ---------------------------------------------
 \* obj = [objs : Seq([core : object state as above, invfp : footprint the lazily fitted inverse was made for]),
@@ -364,7 +414,7 @@ ReprSound == phase = "case" /\ c.kind = "repr" => ReprWellFormed(c)
 \* ---- export ----------------------------------------------------------------------------------
 Export == DoExport =>
     /\ (phase = "case" => PrintT(<<"CASE", ToJson(c)>>))
-    /\ (phase = "hist" /\ hk # "none" /\ Len(calls) = HistLen(hk) => PrintT(<<"HIST", ToJson([hk |-> hk, mode |-> c.mode, calls |-> calls])>>))
+    /\ (phase = "hist" /\ hk # "none" /\ Len(calls) = HistLen(hk) => PrintT(<<"HIST", ToJson([hk |-> hk, mode |-> c.mode, ang |-> c.ang, calls |-> calls])>>))
     /\ (phase = "world" /\ hk # "none" /\ Len(calls) = WorldLen =>
             PrintT(<<"WORLD", ToJson([hk |-> hk, rels |-> RelTuple(c.relid), calls |-> calls])>>))
 =============================================================================
